@@ -69,7 +69,11 @@ def check_property(prop, tier='quick', seed=0):
     undecided = []
     crashed = []
     trusted_base = set()
+    assumed_contracts = []
     for r in results + lemma_results:
+        if r.get('assumed'):
+            assumed_contracts.append(f"ASSUMED CONTRACT (not verified) on {r['key']}: {r.get('doc', '')}")
+            continue
         if r.get('error'):
             crashed.append((r['key'], r['error']))
             continue
@@ -157,7 +161,7 @@ def check_property(prop, tier='quick', seed=0):
             refuted_known_obligations=[v['name'] for _k, v in known_hits],
             undecided=len([1 for v in all_verdicts if v['status'] == 'unknown']),
             checker_cmd=f'./check {prop} {tier}',
-            trusted_base=sorted(trusted_base),
+            trusted_base=sorted(a for a in trusted_base if not a.startswith('UNCHECKED')),
             back_ends=backends,
             solver_time_s=round(sum(v['time_s'] for v in all_verdicts), 2),
             functions_under_contract=functions,
@@ -167,7 +171,8 @@ def check_property(prop, tier='quick', seed=0):
             explanation='every named obligation is generated from the ast of /repo\'s current source by symbolic '
                         'execution against sidecar contracts and discharged by z3/cvc5 (unsat of pc ∧ ¬clause)',
         ),
-        assumptions=GLOBAL_ASSUMPTIONS + prop_assumptions(prop),
+        assumptions=GLOBAL_ASSUMPTIONS + prop_assumptions(prop) + assumed_contracts
+        + [a for a in sorted(trusted_base) if a.startswith('UNCHECKED')],
         wall_s=round(wall, 2),
         violations=len(violations),
     )
